@@ -287,7 +287,7 @@ func llmnrScenarios(c *vf.Ctx, B int) []*scenario {
 		}
 	}
 	// client: two concurrent queries against a scripted responder
-	for _, mode := range []string{"in-order", "reversed", "only-first", "unknown-id-first", "duplicate", "triplicate"} {
+	for _, mode := range []string{"in-order", "reversed", "only-first", "unknown-id-first", "duplicate", "triplicate", "question-in-other-case"} {
 		mode := mode
 		out = append(out, &scenario{name: "llmnr-client-2queries/" + mode, keys: []string{"query-returns-response-with-own-id", "answered-query-does-not-time-out", "unanswered-query-times-out", "readloop-exits-after-close"}, bound: B, body: func(x *exec) {
 			clientScenario(x, mode, false)
@@ -344,7 +344,14 @@ func clientScenario(x *exec, mode string, closeRace bool) {
 			r := llmnr.CreateResponseFromMessage(q.m)
 			r.ID = id
 			for _, qq := range q.m.Questions {
-				r.AddAnswerClassINTypeA(qq.Name, hostAddr[qq.Name])
+				r.AddAnswerClassINTypeA(qq.Name, hostAddr[qq.Name]) // also echoes the question
+			}
+			switch mode {
+			case "question-in-other-case":
+				// names compare case-insensitively; a responder echoes the question in its own spelling
+				for i := range r.Questions {
+					r.Questions[i].Name = strings.ToUpper(r.Questions[i].Name)
+				}
 			}
 			b, err := r.Encode()
 			if err != nil {
@@ -364,7 +371,7 @@ func clientScenario(x *exec, mode string, closeRace bool) {
 			}
 			q := rq{m, from}
 			got = append(got, q)
-			if mode == "in-order" {
+			if mode == "in-order" || mode == "question-in-other-case" {
 				reply(q, m.ID)
 				answered[m.Questions[0].Name] = true
 			}
@@ -437,11 +444,13 @@ func clientScenario(x *exec, mode string, closeRace bool) {
 			continue
 		}
 		qname := ""
-		if len(r.m.Questions) > 0 {
+		if len(r.m.Answers) > 0 {
+			qname = r.m.Answers[0].Name // the harness responder answers for the name it was asked, whatever it does to the question section
+		} else if len(r.m.Questions) > 0 {
 			qname = r.m.Questions[0].Name
 		}
-		x.obs("query %s -> id %04x question %s", qn[i], r.m.ID, qname)
-		if qname != qn[i] {
+		x.obs("query %s -> id %04x answer for %s", qn[i], r.m.ID, qname)
+		if !strings.EqualFold(qname, qn[i]) {
 			x.fail("query-returns-response-with-own-id", "Query(%s) was handed the response for %q (id %04x)", qn[i], qname, r.m.ID)
 		}
 		if !answered[qn[i]] && !closeRace {
